@@ -711,3 +711,61 @@ func (x *Exec) htmlEscape(a *StrVal) *StrVal {
 	}
 	return out
 }
+
+func init() {
+	idxByteStr := func(x *Exec, s *State, c *CallCtx) Value {
+		return x.strIndexByte(c.Args[0].(*StrVal), c.Args[1].(*Term))
+	}
+	RegisterIntrinsic("internal/bytealg.IndexByteString", idxByteStr)
+	RegisterIntrinsic("internal/stringslite.IndexByte", idxByteStr)
+	RegisterIntrinsic("internal/bytealg.IndexByte", func(x *Exec, s *State, c *CallCtx) Value {
+		return x.strIndexByte(x.bytesToStr(s, c.Args[0]), c.Args[1].(*Term))
+	})
+	RegisterIntrinsic("bytes.IndexByte", func(x *Exec, s *State, c *CallCtx) Value {
+		return x.strIndexByte(x.bytesToStr(s, c.Args[0]), c.Args[1].(*Term))
+	})
+	idxStr := func(x *Exec, s *State, c *CallCtx) Value {
+		return x.strIndex(c.Args[0].(*StrVal), c.Args[1].(*StrVal))
+	}
+	RegisterIntrinsic("internal/bytealg.IndexString", idxStr)
+	RegisterIntrinsic("internal/stringslite.Index", idxStr)
+	RegisterIntrinsic("internal/bytealg.CountString", func(x *Exec, s *State, c *CallCtx) Value {
+		sv := c.Args[0].(*StrVal)
+		ch := c.Args[1].(*Term)
+		r := x.tb.Int64(0)
+		for i := 0; i < x.maxLen(sv); i++ {
+			hit := x.tb.And(x.tb.ULt(x.i64(i), sv.Len), x.tb.Eq(sv.B[i], ch))
+			r = x.tb.Add(r, x.tb.Ite(hit, x.tb.Int64(1), x.tb.Int64(0)))
+		}
+		return r
+	})
+	RegisterIntrinsic("internal/bytealg.Equal", func(x *Exec, s *State, c *CallCtx) Value {
+		return x.strEq(x.bytesToStr(s, c.Args[0]), x.bytesToStr(s, c.Args[1]))
+	})
+	RegisterIntrinsic("bytes.Equal", func(x *Exec, s *State, c *CallCtx) Value {
+		return x.strEq(x.bytesToStr(s, c.Args[0]), x.bytesToStr(s, c.Args[1]))
+	})
+	hasPfx := func(x *Exec, s *State, c *CallCtx) Value {
+		return x.strHasPrefix(c.Args[0].(*StrVal), c.Args[1].(*StrVal))
+	}
+	RegisterIntrinsic("internal/stringslite.HasPrefix", hasPfx)
+	RegisterIntrinsic("internal/stringslite.HasSuffix", func(x *Exec, s *State, c *CallCtx) Value {
+		return x.strHasSuffix(c.Args[0].(*StrVal), c.Args[1].(*StrVal))
+	})
+	RegisterIntrinsic("strings.Count", func(x *Exec, s *State, c *CallCtx) Value {
+		sub, ok := x.concreteStr(c.Args[1].(*StrVal))
+		if !ok || len(sub) != 1 {
+			x.fail("strings.Count: only single-byte concrete substrings are supported")
+		}
+		sv := c.Args[0].(*StrVal)
+		r := x.tb.Int64(0)
+		for i := 0; i < x.maxLen(sv); i++ {
+			hit := x.tb.And(x.tb.ULt(x.i64(i), sv.Len), x.tb.Eq(sv.B[i], x.tb.BV(8, uint64(sub[0]))))
+			r = x.tb.Add(r, x.tb.Ite(hit, x.tb.Int64(1), x.tb.Int64(0)))
+		}
+		return r
+	})
+	RegisterIntrinsic("strings.LastIndexByte", func(x *Exec, s *State, c *CallCtx) Value {
+		return x.strLastIndexByte(c.Args[0].(*StrVal), c.Args[1].(*Term))
+	})
+}
